@@ -39,7 +39,7 @@ def configure(tier, avoid):
     p = gen.Params(max_stmts=14 if quick else 28, max_depth=2 if quick else 3,
                    expr_depth=3, max_procs=2, edgy=0.05, avoid=avoid, mixed_case_types=True,
                    features={'nonbool_cond': True})
-    return {'examples': 400 if quick else 5000, 'params': p, 'tier': tier,
+    return {'examples': 400 if quick else 3000, 'params': p, 'tier': tier,
             'bounds': {'max_stmts': p.max_stmts,
                        'configs': [X.cfg_name(c) for c in CONFIGS]},
             'tick_budget': 80000}
